@@ -8,38 +8,46 @@ META = {"title": "Integer and float fields decode correctly at every size, offse
 ORD = {"msb": "mostSignificantByteFirst", "lsb": "leastSignificantByteFirst"}
 
 
-def make_type(kind, w, enc, order):
-    from space_packet_parser.xtce import encodings, parameter_types
+def make_type(kind, w, enc, order, var=""):
+    """var: '' plain; 'ctx' the encoding also declares context calibrators none of which applies to the packets used here
+    (MODE is 0 in them) and no default calibrator: the field is still an uncalibrated one."""
+    from space_packet_parser.xtce import calibrators, comparisons, encodings, parameter_types
+    kw = {}
+    if var == "ctx":
+        poly = calibrators.PolynomialCalibrator([calibrators.PolynomialCoefficient(7.0, 0), calibrators.PolynomialCoefficient(3.0, 1)])
+        kw["context_calibrators"] = [calibrators.ContextCalibrator([comparisons.Comparison("1", "MODE", "==")], poly),
+                                     calibrators.ContextCalibrator([comparisons.Comparison("0", "MODE", "<")], poly)]
     if kind == "int":
-        return parameter_types.IntegerParameterType("T", encodings.IntegerDataEncoding(w, enc, byte_order=ORD[order]))
+        return parameter_types.IntegerParameterType("T", encodings.IntegerDataEncoding(w, enc, byte_order=ORD[order], **kw))
     return parameter_types.FloatParameterType("T", encodings.FloatDataEncoding(
-        w, encoding="MILSTD_1750A" if kind == "mil" else enc, byte_order=ORD[order]))
+        w, encoding="MILSTD_1750A" if kind == "mil" else enc, byte_order=ORD[order], **kw))
 
 
 _TYPES = {}
 
 
-def decode(kind, bits, enc, order, offset, rng=None):
+def decode(kind, bits, enc, order, offset, rng=None, var=""):
     """Place the field bits at bit `offset` of a packet (random surrounding bits), decode with the real type."""
-    from space_packet_parser import packets
-    key = (kind, len(bits), enc, order)
+    from space_packet_parser import common, packets
+    key = (kind, len(bits), enc, order, var)
     t = _TYPES.get(key)
     if t is None:
-        t = _TYPES[key] = make_type(kind, len(bits), enc, order)
+        t = _TYPES[key] = make_type(kind, len(bits), enc, order, var)
     pre = [rng.getrandbits(1) if rng else 1 for _ in range(offset)]
     total = offset + len(bits)
     post = [rng.getrandbits(1) if rng else 0 for _ in range((-total) % 8 + 8)]
     allb = pre + list(bits) + post
     buf = int("".join(map(str, allb)) or "0", 2).to_bytes(len(allb) // 8, "big")
     pkt = packets.CCSDSPacket(raw_data=buf)
+    pkt["MODE"] = common.IntParameter(0)
     pkt.raw_data.pos = offset
     v = t.parse_value(pkt)
     return v, pkt.raw_data.pos - offset
 
 
-def line_for(kind, bits, enc, order, offset, rng):
-    v, adv = decode(kind, bits, enc, order, offset, rng)
-    return {"k": kind, "b": list(bits), "e": enc, "o": order, "r": typed.to_typed(v), "raw": typed.to_typed(v.raw_value),
+def line_for(kind, bits, enc, order, offset, rng, var=""):
+    v, adv = decode(kind, bits, enc, order, offset, rng, var)
+    return {"var": var, "k": kind, "b": list(bits), "e": enc, "o": order, "r": typed.to_typed(v), "raw": typed.to_typed(v.raw_value),
             "c": typed.cls_name(v), "adv": adv, "off": offset}
 
 
@@ -51,7 +59,8 @@ def run(ctx):
                 "boundary patterns of widths 11..128, binary32/64 and MIL-1750A exported. A: every exported row decoded by the "
                 "real ParameterType.parse_value at several bit offsets. B: random wide integers (1..128 bits), binary32/64 and "
                 "1750A patterns at random offsets logged from the real decoder and re-evaluated by Trace_Numeric. "
-                "distinct = (kind, bits, encoding, order, offset).")
+                "A share of both sections uses encodings that also declare context calibrators none of which applies "
+                "(still an uncalibrated field). One type object per layout decodes all its cases. distinct = (kind, bits, encoding, order, offset, variant).")
     ctx.assumptions = ["little-endian byte order is claimed for whole-byte widths only (as the property states)",
                        "NaN payloads are not compared (class only)",
                        "Python floats are binary64; binary16/32 and 1750A values convert exactly"]
@@ -76,10 +85,11 @@ def run(ctx):
             continue      # quick: a quarter of the binary16 patterns (all of them in the TLC run and in thorough)
         offsets = offs_all if (not q or len(bits) > 16 or i % 16 == 0) else [0, 1 + i % 7]
         for off in offsets:
-            ctx.count(("A", kind, tuple(bits), enc, order, off))
+            var = "ctx" if (i + off) % 5 == 0 else ""
+            ctx.count(("A", kind, tuple(bits), enc, order, off, var))
             ctx.traces += 1
             try:
-                v, adv = decode(kind, bits, enc, order, off, rng)
+                v, adv = decode(kind, bits, enc, order, off, rng, var)
                 got = typed.to_typed(v)
                 prob = None
                 if not typed.same(got, want):
@@ -93,8 +103,8 @@ def run(ctx):
             except Exception as e:  # noqa: BLE001
                 prob = f"exception {type(e).__name__}: {e}"
             if prob:
-                ctx.violation(f"C04/replay/{kind}/{enc}/{order}/{'aligned' if off == 0 else 'unaligned'}", prob,
-                              {"k": kind, "b": bits, "e": enc, "o": order, "off": off})
+                ctx.violation(f"C04/replay/{kind}/{enc}/{order}/{'aligned' if off == 0 else 'unaligned'}{'/inapplicable-context-calibrators' if var else ''}",
+                              prob, {"k": kind, "b": bits, "e": enc, "o": order, "off": off, "var": var})
         if kind != "int" and row["r"]["cls"] == "fin" and len(bits) > 16:
             ctx.sample({"direction": "spec->code", "kind": kind, "bits": "".join(map(str, bits)), "order": order, "expected": want}, limit=3)
     # ---- B: random wide patterns
@@ -127,23 +137,25 @@ def run(ctx):
             if w > 12:
                 for j in range(rng.randrange(4)):
                     bits[rng.randrange(w)] ^= 1
+        var = "ctx" if rng.random() < 0.3 else ""
         try:
-            lines.append(line_for(kind, bits, enc, order, off, rng))
+            lines.append(line_for(kind, bits, enc, order, off, rng, var))
         except Exception as e:  # noqa: BLE001
-            ctx.violation(f"C04/trace/exception/{kind}", f"{type(e).__name__}: {e}", {"k": kind, "b": bits, "e": enc, "o": order, "off": off})
+            ctx.violation(f"C04/trace/exception/{kind}", f"{type(e).__name__}: {e}", {"k": kind, "b": bits, "e": enc, "o": order, "off": off, "var": var})
     for ln in lines:
-        ctx.count(("B", ln["k"], tuple(ln["b"]), ln["e"], ln["o"], ln["off"]))
+        ctx.count(("B", ln["k"], tuple(ln["b"]), ln["e"], ln["o"], ln["off"], ln["var"]))
     rej = tables.validate_lines(ctx, "Trace_Numeric", lines, "decodes", jobs=16)
     for idx, clause in rej.items():
         ln = lines[idx]
-        ctx.violation(f"C04/trace/{ln['k']}/{clause[0]}/{ln['e']}/{ln['o']}", f"logged decode rejected by Trace_Numeric ({clause[0]}): "
-                      f"bits {''.join(map(str, ln['b']))} -> {ln['r']}", {"k": ln["k"], "b": ln["b"], "e": ln["e"], "o": ln["o"], "off": ln["off"]})
+        ctx.violation(f"C04/trace/{ln['k']}/{clause[0]}/{ln['e']}/{ln['o']}{'/inapplicable-context-calibrators' if ln['var'] else ''}",
+                      f"logged decode rejected by Trace_Numeric ({clause[0]}): bits {''.join(map(str, ln['b']))} -> {ln['r']} class {ln['c']}",
+                      {"k": ln["k"], "b": ln["b"], "e": ln["e"], "o": ln["o"], "off": ln["off"], "var": ln["var"]})
     ctx.sample({"direction": "code->spec", **{k: lines[0][k] for k in ("k", "e", "o", "off", "r", "c", "adv")},
                 "bits": "".join(map(str, lines[0]["b"]))}, limit=5)
 
 
 def replay(ctx, obj):
-    ln = line_for(obj["k"], obj["b"], obj["e"], obj["o"], obj.get("off", 0), None)
+    ln = line_for(obj["k"], obj["b"], obj["e"], obj["o"], obj.get("off", 0), None, obj.get("var", ""))
     rej = tables.validate_lines(ctx, "Trace_Numeric", [ln], "replay", jobs=1)
     print(ln, "rejected:", rej)
     for idx, clause in rej.items():
